@@ -422,6 +422,12 @@ def fam_c09():
     add("finally-throws", [Try([Try([P(1)], "e", [P(2)], f=[Throw(S("fin"))]), P(8)], "e2", [P(Id("e2"))]), P(4), Ret(I(0))])
     add("uncaught-from-fn", [FnStmt("f", [], [P(1), Throw(S("deep")), P(2)]), FnStmt("g", [], [P(3), E(Call("f")), P(4)]), P(5), E(Call("g")), P(6)])
     add("catch-no-var", [Try([Throw(I(5))], "", [P(1)]), P(2), Ret(I(0))])
+    # throw always throws: whatever the value is (an empty string, nil, false, zero, an empty list)
+    for nm, v in (("empty-string", S("")), ("nil", NIL), ("false", B(False)), ("zero", I(0)), ("empty-list", L())):
+        add("throw-%s" % nm, [Try([P(1), Throw(v), P(9)], "e", [P(2)], f=[P(3)]), P(4), Ret(I(0))])
+        add("throw-%s-in-fn" % nm, [FnStmt("f", [], [Defer(Call("p", I(7))), P(1), Throw(v), P(9), Ret(I(1))]), Try([P(Call("f")), P(8)], "e", [P(2)]), Ret(I(0))])
+        if nm != "empty-list":          # (how a thrown container is spelled in the message is not asserted)
+            add("throw-%s-top" % nm, [P(1), Throw(v), P(9)])
     add("throw-int", [Try([Throw(I(5))], "e", [P(Id("e"))]), Ret(I(0))])
     add("catch-in-fn-of-callee-defers", [FnStmt("g", [], [Defer(Call("p", I(1))), Throw(S("g"))]), FnStmt("f", [], [Try([E(Call("g"))], "e", [P(Id("e"))]), P(2), Ret(I(3))]), P(Call("f")), Ret(I(0))])
     add("try-in-deferred", [FnStmt("f", [], [Defer(ACall(Fn([], [Try([Throw(S("d"))], "e", [P(Id("e"))]), Ret(I(0))]))), P(1), Ret(I(2))]), P(Call("f")), Ret(I(0))])
